@@ -289,3 +289,14 @@ Section Utf8.
     discriminate.
   Qed.
 End Utf8.
+
+(** TESTS of the definition against RFC 3629: accepted / rejected sequences *)
+Example utf8_valid_accepts :
+  forallb utf8_valid [ []; [65]; [0; 127]; [195; 169]; [226; 130; 172]; [240; 144; 141; 136]; [244; 143; 191; 191];
+                       [237; 159; 191]; [238; 128; 128]; [224; 160; 128]; [65; 195; 169; 66; 226; 130; 172; 67] ] = true.
+Proof. vm_compute. reflexivity. Qed.
+Example utf8_valid_rejects :
+  forallb (fun l => negb (utf8_valid l))
+    [ [128]; [191; 65]; [192; 128]; [193; 191]; [224; 159; 191]; [237; 160; 128]; [240; 143; 191; 191];
+      [244; 144; 128; 128]; [245; 128; 128; 128]; [255]; [226; 130]; [195]; [195; 40]; [226; 40; 161]; [-1]; [256] ] = true.
+Proof. vm_compute. reflexivity. Qed.
